@@ -152,13 +152,9 @@ def step (_ : Unit) (op impl : String) : Unit × StepOut := Id.run do
   -- known finding C01-uquic-pto-probe-without-ping: a spec-driven client whose 1-RTT PTO fires with nothing to
   -- retransmit closes the connection with "couldn't pack 1-RTT probe packet" (uPacketPacker ignores addPingIfEmpty)
   let ptoBug := (cl == "chrome" || cl == "firefox") && ((impl.splitOn "couldn't_pack_1-RTT_probe_packet").length > 1)
-  -- known finding C01-0rtt-anti-deadlock-pto: a 0-RTT client whose early data fills the congestion window and whose
-  -- ClientHello is (partly) lost never retransmits it — OnLossDetectionTimeout wants bytesInFlight == 0 for the
-  -- anti-deadlock probe — so the handshake never completes: the server never accepts, both ends time out
-  let hsMode := natOf ((field op "h=").getD "0")
-  let zrDeadlock := hsMode ≥ 3 && hsMode ≤ 5 && !faults.isEmpty && dial == "nil" && (field impl "zr=") == some "0,0" &&
-      (werrAll.splitOn "accept=deadline").length > 1 && c2s.isEmpty && s2c.isEmpty
-  let kcls := if ptoBug then "uquic_pto_probe_without_ping" else if zrDeadlock then "zero_rtt_anti_deadlock_pto" else "-"
+  -- (regression corpus/C01/e2estream/0rtt-cwnd-full-initial-lost.ops: a 0-RTT client whose early data filled the congestion
+  -- window and whose ClientHello was partly lost never probed; fixed in /repo 23a90f5)
+  let kcls := if ptoBug then "uquic_pto_probe_without_ping" else "-"
   for (dir, o) in (c2s.map fun o => ("c2s", o)) ++ (s2c.map fun o => ("s2c", o)) ++ (p2.map fun o => ("phase2", o)) do
     if !o.pfx || o.got > o.want then
       fails := fails ++ [("e2e_prefix", "-", s!"{dir} stream {o.id}: the {o.got} bytes read are not a prefix of the {o.want} bytes written")]
